@@ -25,7 +25,7 @@ def _units(w):
             Inst("c", cell, {"a": Sig("bus"), "b": BRef("bb", ("y",))}),
             Inst("c2", cell, {"a": BRef("bb", ("x",)), "b": Sig("a")})]),
         # a unit whose port carries the name the generator likes for its own internal net
-        5: Ext("XI", [("i", 1), ("o", 1), ("g", 1)], params=None),
+        5: Ext("XI", [("i", 1), ("i_", 1), ("o", 1)], params=None),  # (... and for the first name it would retry with)
     }
 
 
